@@ -2,6 +2,7 @@ package props
 
 import (
 	"fmt"
+	strend "github.com/cinar/indicator/v2/strategy/trend"
 
 	"github.com/cinar/indicator/v2/strategy"
 
@@ -97,7 +98,40 @@ func c06Check(cc *run.Case, ns namedStrat, class string, n int) {
 		ns.Name, class, n, rc.FirstBad, a, w, rc.Bad, rc.Compared), detail())
 }
 
+// c06Ctors: the parameterless constructors that the registry rows do not use
+// must give what the documented defaults give.
+func c06Ctors(ctx *run.Ctx) {
+	ctx.Case("ctor/trend.EnvelopeStrategy", func(cc *run.Case) {
+		row := reg.StratByName("trend.EnvelopeStrategy")
+		snaps := reg.Snaps(gen.Bars(cc.R, gen.Spike, 251)) // outliers: the default 20 % envelope is left now and then
+		got, want := runStrat(strend.NewEnvelopeStrategy(), snaps), runStrat(row.New(row.Default), snaps)
+		if !eqActions(got, want) {
+			cc.Viol("", "trend.NewEnvelopeStrategy(): its actions differ from an EnvelopeStrategy configured with the documented defaults (SMA, DefaultEnvelopePeriod, DefaultEnvelopePercentage)", nil)
+			return
+		}
+		if a, b := strend.NewEnvelopeStrategy().Name(), row.New(row.Default).Name(); a != b {
+			cc.Viol("", fmt.Sprintf("trend.NewEnvelopeStrategy() is named %q, the documented defaults give %q", a, b), nil)
+		}
+		cc.Count("default_constructors_checked", 1)
+	})
+	ctx.Case("ctor/strategy.MajorityStrategy", func(cc *run.Case) {
+		snaps := reg.Snaps(gen.Bars(cc.R, gen.Walk2, 120))
+		subs := func() []strategy.Strategy {
+			return []strategy.Strategy{strend.NewMacdStrategy(), strategy.NewBuyAndHoldStrategy(), strend.NewBopStrategy()}
+		}
+		m := strategy.NewMajorityStrategy("m")
+		m.Strategies = subs()
+		got, want := runStrat(m, snaps), runStrat(strategy.NewMajorityStrategyWith("m", subs()), snaps)
+		if !eqActions(got, want) {
+			cc.Viol("", "strategy.NewMajorityStrategy(name) with its Strategies field filled gives other actions than NewMajorityStrategyWith(name, the same strategies)", nil)
+			return
+		}
+		cc.Count("default_constructors_checked", 1)
+	})
+}
+
 func c06(ctx *run.Ctx) {
+	c06Ctors(ctx)
 	base := baseStrats(ctx, ctx.Pick(8, 60))
 	classes := []string{gen.Walk, gen.Walk2, gen.Dyadic, gen.Ties, gen.Degen}
 	if !ctx.Quick() {
